@@ -359,6 +359,16 @@ func (s *Scheduler) run(emitter Emitter, freq time.Duration) {
 		}
 	}()
 
+	// If the goroutine running this loop is killed by code it calls into
+	// (an Emitter calling runtime.Goexit, e.g. t.FailNow from a test's
+	// emitter), submitted jobs may never run: Wait must not report success.
+	exitCleanly := false
+	defer func() {
+		if !exitCleanly && s.err == nil {
+			s.err = errors.New("scheduler loop exited unexpectedly")
+		}
+	}()
+
 	var tickerC <-chan time.Time
 	if emitter != nil {
 		// Note: Phab marks this block as untested, but we believe this is
@@ -468,6 +478,7 @@ func (s *Scheduler) run(emitter Emitter, freq time.Duration) {
 				// failed.
 				if !s.continueOnError {
 					s.err = err
+					exitCleanly = true
 					return
 				}
 				// With continueOnError, mark invalid directly dependent jobs,
@@ -510,6 +521,7 @@ func (s *Scheduler) run(emitter Emitter, freq time.Duration) {
 		// If all enqueued jobs have been finished and no new enqueues
 		// are allowed, we can exit.
 		if pending == 0 && enqueuec == nil {
+			exitCleanly = true
 			return
 		}
 	}
